@@ -51,6 +51,7 @@ func run(c *vf.Ctx) {
 		"distinct = distinct (part, input) pairs; states/transitions are those of the BFS part")
 	c.Assume("refsmb header codec is MS-CIFS 2.2.3.1 (self-tested on the MS17-010 scanner's negotiate packet and the repository's header test vector); command names are MS-CIFS 2.2.2.1")
 	headerPart(c)
+	customSecurityFeatures(c)
 	dispatchPart(c, u)
 	tally := smbgen.NewTally(c)
 	framingPart(c, u, tally)
